@@ -141,7 +141,93 @@ def gen_args(rng, maxn=3):
     return out
 
 
-def gen_program(rng, idx, wild_p=0.25, n_ifaces=None, with_ce=None):
+DATA_MODES = {
+    "none": None,
+    "raw": {"raw": True}, "raw_opt": {"raw": True, "opt": True},
+    "typed": {}, "opt": {"opt": True},
+    "inst": {"instantiate": True}, "inst_opt": {"instantiate": True, "opt": True},
+}
+
+
+def data_arg(rng, mode):
+    d = dict(DATA_MODES[mode])
+    if mode == "raw":
+        ty = P("Binary")
+    elif mode == "raw_opt":
+        ty = P("Option", P("Binary"))
+    elif mode == "inst":
+        ty = P("MsgInstantiateContractResponse")
+    elif mode == "inst_opt":
+        ty = P("Option", P("MsgInstantiateContractResponse"))
+    else:
+        inner = rng.choice([P("String"), P("u32"), P("Uint128"), P("Vec", P("u8")), P("bool"), T(P("u8"), P("String"))])
+        ty = inner if mode == "typed" else P("Option", inner)
+        d["inner"] = inner
+    return {"name": "data", "ty": ty, "data": {k: bool(v) for k, v in d.items() if k != "inner"}, "data_mode": mode, "inner": d.get("inner")}
+
+
+def gen_replies(rng, ce, taken=()):
+    """reply handlers: per handler name a pattern of methods covering success / error / always"""
+    used = set()
+    methods = []
+    nentries = rng.choice([1, 2, 2, 3, 4])
+    hnames = []
+    while len(hnames) < nentries:
+        h = gen.shape_name(rng)
+        if h in RESERVED or casing.cc_upper_snake(h) in used or h in hnames or h in taken:
+            continue
+        used.add(casing.cc_upper_snake(h))
+        hnames.append(h)
+    shared = None
+    for h in hnames:
+        pattern = rng.choice(["S", "E", "SE", "ES", "A", "S", "SE"])
+        psig = rng.choice(["raw", "one", "two", "three"])
+        if psig == "raw":
+            payload = [{"name": "pl", "ty": P("Binary"), "payload_raw": True}]
+        else:
+            n = {"one": 1, "two": 2, "three": 3}[psig]
+            payload = [{"name": "p%d" % i, "ty": rand_vty(rng, 1)} for i in range(n)]
+        mode = rng.choice(list(DATA_MODES))
+        for k, on in enumerate(pattern):
+            on_word = {"S": "success", "E": "error", "A": "always"}[on]
+            fn = h if (len(pattern) == 1 and rng.random() < 0.5) else "on_%s_%s" % (h, on_word)
+            args = []
+            role = "none"
+            if on == "S":
+                if mode != "none":
+                    args.append(data_arg(rng, mode))
+                    role = mode
+            elif on == "E":
+                args.append({"name": "error", "ty": P("String")})
+                role = "error"
+            else:
+                args.append({"name": "result", "ty": P("SubMsgResult")})
+                role = "result"
+            # the merged methods of one entry must agree on the payload *types*; names may differ
+            args += [dict(a, name=a["name"] + ("" if k == 0 else "b")) for a in payload]
+            msg = {"kind": "reply", "reply_on": on_word, "handlers": [] if fn == h else [h]}
+            # dispatch_reply returns the handler's result as is: reply handlers must return the contract's own error type
+            methods.append({"name": fn, "msg": msg, "args": args, "ret_kind": "resp", "ret_err": "ce" if ce else "std",
+                            "reply_role": role, "reply_handler": h})
+    return methods
+
+
+def reply_table(prog):
+    """python oracle: handler name -> {outcome: method}, in first-seen order (numeric ids)"""
+    tbl = []
+    for m in prog["contract"]["methods"]:
+        if m["msg"]["kind"] != "reply":
+            continue
+        for h in (m["msg"].get("handlers") or [m["name"]]):
+            e = next((x for x in tbl if x["handler"] == h), None)
+            if e is None:
+                e = {"handler": h, "methods": {}}
+                tbl.append(e)
+            e["methods"][m["msg"]["reply_on"]] = m
+    return tbl
+
+
+def gen_program(rng, idx, wild_p=0.25, n_ifaces=None, with_ce=None, replies_p=0.6):
     used_fn = {k: set() for k in ("all",)}["all"]
     used_wire = {"exec": set(), "query": set(), "sudo": set()}
     ce = rng.random() < 0.5 if with_ce is None else with_ce
@@ -184,6 +270,8 @@ def gen_program(rng, idx, wild_p=0.25, n_ifaces=None, with_ce=None):
         src = rng.choice(execs)
         if casing.wire_name(src["name"]) not in used_wire["sudo"]:
             pass  # two methods cannot share a Rust name inside one impl; cross-kind sharing is done via interfaces above
+    if rng.random() < replies_p:
+        cms += gen_replies(rng, ce, taken={m["name"] for m in cms})
     # a handler may name the context type of another kind with the same shape (the macro only looks at the attribute)
     for m in cms:
         if m["msg"]["kind"] == "instantiate" and rng.random() < 0.3:
@@ -194,6 +282,7 @@ def gen_program(rng, idx, wild_p=0.25, n_ifaces=None, with_ce=None):
             m["ctx_ty"] = "MigrateCtx"
     rng.shuffle(cms)
     contract = {"name": "Ct", "error": "ContractError" if ce else None, "methods": cms,
+                "replies": any(m["msg"]["kind"] == "reply" for m in cms),
                 "ifaces": [{"module": i["module"], "alias": i["alias"]} for i in ifaces]}
     return {"id": "p%d" % idx, "ifaces": ifaces, "contract": contract}
 
@@ -218,8 +307,37 @@ def ret_ty(m, contract):
     return {"p": [["StdResult", [inner]]]}
 
 
+FIRST_EXPR = {
+    "none": 'String::from("-")',
+    "typed": "j(&data)", "opt": "j(&data)",
+    "raw": 'format!("raw:{}", hex(data.as_slice()))',
+    "raw_opt": 'format!("rawopt:{}", data.as_ref().map(|d| hex(d.as_slice())).unwrap_or_else(|| "none".into()))',
+    "inst": 'format!("inst:{}", show_inst(&data))',
+    "inst_opt": 'format!("instopt:{}", data.as_ref().map(show_inst).unwrap_or_else(|| "none".into()))',
+    "error": 'format!("error:{}", error)',
+    "result": "show_result(&result)",
+}
+
+
+def reply_body(part, m):
+    hid = "%s.%s" % (part, m["name"])
+    ety = {"self": "Self::Error", "ce": "ContractError", "std": "StdError"}[m["ret_err"]]
+    role = m["reply_role"]
+    pargs = m["args"][(0 if role == "none" else 1):]
+    parts = []
+    for a in pargs:
+        if a.get("payload_raw"):
+            parts.append('("%s", format!("\\"x{}\\"", hex(%s.as_slice())))' % (a["name"], a["name"]))
+        else:
+            parts.append('("%s", j(&%s))' % (a["name"], a["name"]))
+    return ("let attrs = echo_reply::<%s, _>(\"%s\", &ctx, %s, &[%s])?; ctx.deps.storage.set(b\"ran\", b\"%s\"); Ok(resp_of(attrs))"
+            % (ety, hid, FIRST_EXPR[role], ", ".join(parts), hid))
+
+
 def handler_body(part, m):
     kind = m["msg"]["kind"]
+    if kind == "reply":
+        return reply_body(part, m)
     hid = "%s.%s" % (part, m["name"])
     args = ", ".join('("%s", j(&%s))' % (a["name"], a["name"]) for a in m["args"])
     info = "Some(&ctx.info)" if kind in ("exec", "instantiate") else "None"
@@ -391,6 +509,8 @@ def render_run(prog):
     for idx, svp, label, methods in parts:
         for m in methods:
             k = m["msg"]["kind"]
+            if k == "reply":
+                continue
             tys = [gen.ty_text(a["ty"], " ") for a in m["args"]]
             names = [a["name"] for a in m["args"]]
             if k in ("instantiate", "migrate"):
@@ -411,10 +531,102 @@ def render_run(prog):
     A('                    _ => "bad-op".into(),')
     A("                }")
     A("            }")
+    L.extend(render_reply_ops(prog))
     A('            _ => "bad-op".into(),')
     A("        }")
     A("    }")
     return "\n".join(L)
+
+
+def entry_payload(e):
+    """payload parameters of a table entry: those of its first method"""
+    m = list(e["methods"].values())[0]
+    first = [x for x in prog_methods_order(e) ][0]
+    return first["args"][(0 if first["reply_role"] == "none" else 1):]
+
+
+def prog_methods_order(e):
+    return e["order"]
+
+
+def reply_entries(prog):
+    """table entries with their methods in merge order"""
+    tbl = []
+    for m in prog["contract"]["methods"]:
+        if m["msg"]["kind"] != "reply":
+            continue
+        for h in (m["msg"].get("handlers") or [m["name"]]):
+            e = next((x for x in tbl if x["handler"] == h), None)
+            if e is None:
+                e = {"handler": h, "methods": {}, "order": []}
+                tbl.append(e)
+            e["methods"][m["msg"]["reply_on"]] = m
+            e["order"].append(m)
+    return tbl
+
+
+def render_reply_ops(prog):
+    tbl = reply_entries(prog)
+    if not tbl:
+        return []
+    L = []
+    A = L.append
+    pairs = ", ".join('("%s_REPLY_ID", sv::%s_REPLY_ID)' % (casing.cc_upper_snake(e["handler"]), casing.cc_upper_snake(e["handler"])) for e in tbl)
+    A('            "rids" => { let v: Vec<(&str, u64)> = vec![%s]; v.iter().map(|(n, i)| format!("{}={}", n, i)).collect::<Vec<_>>().join(",") }' % pairs)
+    # ---- reply <id> <gas> <ok|err> <nevents> <datahex|-> <nmsgr> <errhex> <payloadhex> <envspec> <fail> <height> <seed>
+    A('            "reply" => {')
+    A("                let f: Vec<&str> = rest.split(' ').collect();")
+    A('                if f.len() < 12 { return "bad-op".into(); }')
+    A('                let c = Ctx { fail: f[9].to_string(), sender: "s".into(), amount: 0, height: f[10].parse().unwrap_or(1), seed: f[11].to_string() };')
+    A('                let data = if f[4] == "-" { None } else { Some(unhex(f[4])) };')
+    A('                let reply = mk_reply(f[0].parse().unwrap_or(0), f[1].parse().unwrap_or(0), f[2] == "ok", f[3].parse().unwrap_or(0), data, f[5].parse().unwrap_or(0), &String::from_utf8_lossy(&unhex(f[6])), unhex(f[7]));')
+    A("                let mut deps = c.deps();")
+    A("                let r = sv::dispatch_reply(deps.as_mut(), c.env(), reply, Ct::new());")
+    A("                show_reply_resp(r, &deps.storage)")
+    A("            }")
+    # ---- submsg / rt <entry> <recv> <mode...> <json args>
+    for opname in ("submsg", "rt"):
+        A('            "%s" => {' % opname)
+        if opname == "submsg":
+            A("                let mut it = rest.splitn(3, ' ');")
+            A('                let (entry, recv, json) = (it.next().unwrap_or(""), it.next().unwrap_or(""), it.next().unwrap_or(""));')
+        else:
+            A("                let mut it = rest.splitn(7, ' ');")
+            A('                let (entry, recv, okerr, gas, height, seed, json) = (it.next().unwrap_or(""), it.next().unwrap_or(""), it.next().unwrap_or(""), it.next().unwrap_or(""), it.next().unwrap_or(""), it.next().unwrap_or(""), it.next().unwrap_or(""));')
+        A("                match entry {")
+        for n, e in enumerate(tbl):
+            pay = e["order"][0]["args"][(0 if e["order"][0]["reply_role"] == "none" else 1):]
+            tys = ["String" if a.get("payload_raw") else gen.ty_text(a["ty"], " ") for a in pay]
+            tup = "(%s)" % "".join(t + ", " for t in tys)
+            call_args = ", ".join(("Binary::from(unhex(&a.%d))" % i) if a.get("payload_raw") else ("a.%d.clone()" % i) for i, a in enumerate(pay))
+            h = e["handler"]
+            A('                    "%d" => match from_json::<%s>(json.as_bytes()) {' % (n, tup))
+            A('                        Err(_) => "bad-args".into(),')
+            A("                        Ok(a) => {")
+            A("                            let built = match recv {")
+            A('                                "sub" => (<SubMsg<Empty> as sv::SubMsgMethods<Empty>>::%s(base_sub(), %s), base_cosmos()),' % (h, call_args))
+            A('                                "wasm" => (<WasmMsg as sv::SubMsgMethods<Empty>>::%s(base_wasm(), %s), CosmosMsg::Wasm(base_wasm())),' % (h, call_args))
+            A('                                _ => (<CosmosMsg<Empty> as sv::SubMsgMethods<Empty>>::%s(base_cosmos(), %s), base_cosmos()),' % (h, call_args))
+            A("                            };")
+            if opname == "submsg":
+                A("                            show_submsg(built.0, &built.1)")
+            else:
+                A("                            match built.0 {")
+                A('                                Err(e) => format!("err {}", e),')
+                A("                                Ok(sm) => {")
+                A('                                    let c = Ctx { fail: "-".into(), sender: "s".into(), amount: 0, height: height.parse().unwrap_or(1), seed: seed.to_string() };')
+                A('                                    let reply = mk_reply(sm.id, gas.parse().unwrap_or(0), okerr == "ok", 2, None, 1, "boom", sm.payload.to_vec());')
+                A("                                    let mut deps = c.deps();")
+                A("                                    let r = sv::dispatch_reply(deps.as_mut(), c.env(), reply, Ct::new());")
+                A("                                    show_reply_resp(r, &deps.storage)")
+                A("                                }")
+                A("                            }")
+            A("                        }")
+            A("                    },")
+        A('                    _ => "bad-op".into(),')
+        A("                }")
+        A("            }")
+    return L
 
 
 # ---------------------------------------------------------------------------------------------
